@@ -329,6 +329,9 @@ def main(tier):
             # the truncated stream needs its own base output
             res, status, err, ex = None, None, None, None
             items.append(('base', sid, data))
+        if seg_ids:
+            # the same bytes with CRLF line ends (a cut may then fall between the CR and the LF)
+            items.append(('base', -1, b''.join(streams[seg_ids[0]])[:150].replace(b'\n', b'\r\n')))
         seg_base = {}
         for r in tp.imap(_segbase_job, items, chunksize=1):
             seg_base[r['sid']] = (r['data'], r['flat'])
